@@ -116,6 +116,8 @@ package tags
 //@ at call before #1: opens = opens + 1
 //@ at call before #1: beforeFailed = result != nil
 //@ at call after #1 before assert afterItsBefore: closes + 1 == opens && arg1 == i
+// an iteration ended by break is handed to the decorator as the last one (tablerow closes its row)
+//@ at call after #1 before assert closesOnBreak: arg2 == ite(brk, i + 1, l)
 //@ at call after #1: closes = closes + 1
 //@ ensures balanced: beforeFailed || opens == closes
 //@ ensures writeError: wfailed ==> result != nil
